@@ -75,6 +75,7 @@ def match_callbacks(run, prop: str, c: Dict[str, int]) -> List[Viol]:
             return [] if all(pos[k] == len(valid_idx[p]) for k, p in enumerate(run.ports)) else None
         got = cbs[i]["dev"]
         tried = False
+        cands = []
         for k, p in enumerate(run.ports):
             if pos[k] < len(valid_idx[p]):
                 e = exp[p][valid_idx[p][pos[k]]]
@@ -82,10 +83,12 @@ def match_callbacks(run, prop: str, c: Dict[str, int]) -> List[Viol]:
                     d = fields_diff(e["dev"], got)
                     if strict and d:
                         continue
-                    tried = True
-                    rest = solve(i + 1, pos[:k] + (pos[k] + 1,) + pos[k + 1:], greys_left, strict)
-                    if rest is not None:
-                        return ([(e, got, d)] if d else []) + rest
+                    cands.append((len(d), k, e, d))
+        for _, k, e, d in sorted(cands, key=lambda x: (x[0], x[1])):     # fewest wrongly decoded fields first
+            tried = True
+            rest = solve(i + 1, pos[:k] + (pos[k] + 1,) + pos[k + 1:], greys_left, strict)
+            if rest is not None:
+                return ([(e, got, d)] if d else []) + rest
         if not tried and greys_left:
             known = any(ident(e["dev"]) == ident(got) for p in run.ports for e in exp[p] if e["class"] == "valid")
             if not known:
